@@ -12,7 +12,7 @@ from pyvc.contracts import contract, oracle, Loop, Raises, shape, macro, global_
 from contracts import prop
 
 PR = "behave.parser:"
-shape("Parser", line="int", filename="any", last_step_type="opt:str", statement="opt:ref:Scenario", lines="seq:str", state="any",
+shape("Parser", line="int", filename="any", last_step_type="opt:str", statement="opt:ref:BasicStatement", lines="seq:str", state="any",
       multiline_terminator="opt:str", multiline_start="any", multiline_leading="any", tags="seq:any", scenario_container="any",
       feature="any", rule="any", variant="any", keywords="any", table="any", examples="any", language="any")
 shape("ParserError", line="any", filename="any", line_text="any")
@@ -48,8 +48,11 @@ shape("Step", text="any")
 STMT_STEPS = "as_ref(self.statement, 'Scenario').steps"
 contract(PR + "Parser.action_multiline_text", props=["C04"], params={"self": "ref:Parser", "line": "str"},
          self_classes=["Parser"], result="bool",
+         fields={"Parser.statement": "opt:ref:Scenario"},
          requires={"inside-a-doc-string": "not is_none(self.multiline_terminator)",
                    "a-step-precedes-the-doc-string": "not is_none(self.statement) and len(%s) >= 1" % STMT_STEPS,
+                   "the-step-belongs-to-a-scenario-or-outline (a background's doc-string takes the same statements; not covered here)":
+                       "typeof_is(self.statement, 'Scenario')",
                    "leading-width-is-a-number": "has_kind(self.multiline_leading, 'int')"},
          callsites={"model.Text": "new:Text", "ParserError": "new:ParserError", "self._normalize_step_name": "abs:Parser._normalize_step_name"},
          raises=[Raises("ParserError", when=None, label="bad-indent",
@@ -83,6 +86,9 @@ contract("abs:Parser.subaction_detect_taggable_statement", trusted=True, params=
 shape("Scenario", description="seq:any")
 contract(PR + "Parser.action_scenario", props=["C04", "C05"], params={"self": "ref:Parser", "line": "str"},
          self_classes=["Parser"], result="bool",
+         fields={"Parser.statement": "opt:ref:Scenario"},
+         requires={"the-current-statement-is-a-scenario-or-outline (state SCENARIO)":
+                   "is_none(self.statement) or typeof_is(self.statement, 'Scenario')"},
          raises=[Raises("ParserError", when=None, label="from-the-sub-parsers", ensures={"carries-the-current-line": "exc.line == self.line"})],
          modifies=["self.last_step_type", "self.statement", "self.state", "self.tags", "list(self.tags)", "self.examples", "lists",
                    "*.description"],
@@ -98,6 +104,85 @@ for _n in ("diagnose_feature_usage_error", "diagnose_background_usage_error", "d
            "diagnose_scenario_outline_usage_error"):
     contract(PR + "Parser.%s" % _n, props=["C05"], params={"self": "ref:Parser"}, self_classes=["Parser"], result="str", pure=True,
              ensures={"always-an-explanation-never-an-exception": "has_kind(result, 'str')"})
+
+# -- statement builders: pending tags go to exactly one statement; the parser's cursor moves to the new statement ------------
+shape("Parser", statement="opt:ref:BasicStatement", rule="any", examples="any", tags="seq:any")
+shape("ScenarioOutline", examples="seq:ref:Examples")
+for _cls, _extra in (("Feature", ["language"]), ("Rule", []), ("Scenario", []), ("ScenarioOutline", []), ("Examples", [])):
+    contract("new:model.%s" % _cls, trusted=True, pos_params=["filename", "line", "keyword", "name"], kwarg="kw",
+             params={"kw": "dict"}, fresh_result=_cls,
+             ensures={"stores-the-tag-list-it-is-given": "result.tags is dict_value(kw, 'tags')"},
+             doc="model.%s(filename, line, keyword, name, tags=...): the constructor stores the tag list (A: constructor)" % _cls)
+contract("new:model.Background", trusted=True, pos_params=["filename", "line", "keyword", "name"], fresh_result="Background",
+         doc="model.Background(...)")
+contract("abs:container.add", trusted=True, pos_params=["item"],
+         modifies=["lists", "item.parent", "item.feature", "item.rule", "item.background", "item._background_steps"],
+         doc="feature.add_rule / container.add_scenario: appends to the container's lists and sets the item's back links")
+contract("abs:container.add_background", trusted=True, pos_params=["item"],
+         modifies=["lists", "*.background", "item.parent", "item.feature", "item.rule", "*._background_steps", "*._inherited_steps",
+                   "*.inherited_background"],
+         doc="container.add_background: stores the background in the container (and links inherited backgrounds)")
+_TAGS_CONSUMED = {
+    "the-pending-tags-go-to-the-new-statement": "%s.tags is old(self.tags)",
+    "no-tag-stays-pending-and-the-list-is-not-shared": "is_fresh(self.tags) and len(self.tags) == 0 and self.tags is not old(self.tags)",
+}
+_BUILD_CALLS = {"model.Feature": "new:model.Feature", "model.Rule": "new:model.Rule", "model.Scenario": "new:model.Scenario",
+                "model.ScenarioOutline": "new:model.ScenarioOutline", "model.Examples": "new:model.Examples",
+                "model.Background": "new:model.Background", "ParserError": "new:ParserError",
+                "self.feature.add_rule": "abs:container.add", "self.scenario_container.add_scenario": "abs:container.add",
+                "self.scenario_container.add_background": "abs:container.add_background"}
+_BUILD_MOD = ["self.tags", "self.statement", "self.feature", "self.rule", "self.scenario_container", "self.examples",
+              "lists", "*.parent", "*.feature", "*.rule", "*.background", "*._background_steps"]
+contract(PR + "Parser._build_feature", props=["C04"], params={"self": "ref:Parser", "keyword": "str", "line": "str"},
+         self_classes=["Parser"], callsites=_BUILD_CALLS, modifies=_BUILD_MOD,
+         ensures=dict({k: v % "as_ref(self.feature, 'Feature')" if "%s" in v else v for k, v in _TAGS_CONSUMED.items()}, **{
+             "the-feature-becomes-the-scenario-container": "self.scenario_container is self.feature and is_none(self.rule) "
+                                                           "and is_fresh(self.feature)"}))
+contract(PR + "Parser._build_rule_statement", props=["C04", "C05"], params={"self": "ref:Parser", "keyword": "str", "line": "str"},
+         self_classes=["Parser"], callsites=_BUILD_CALLS, modifies=_BUILD_MOD,
+         ensures=dict({k: v % "as_ref(self.statement, 'Rule')" if "%s" in v else v for k, v in _TAGS_CONSUMED.items()}, **{
+             "the-rule-becomes-current-statement-and-scenario-container":
+                 "is_fresh(self.statement) and exact_type(self.statement, 'Rule') and self.rule is self.statement "
+                 "and self.scenario_container is self.statement"}),
+         doc="C05: after a Rule line the current statement is the rule, so an Examples line under it is rejected "
+             "(`_build_examples` looks at self.statement)")
+contract(PR + "Parser._build_scenario_statement", props=["C04"], params={"self": "ref:Parser", "keyword": "str", "line": "str"},
+         self_classes=["Parser"], callsites=_BUILD_CALLS, modifies=_BUILD_MOD,
+         ensures=dict({k: v % "as_ref(self.statement, 'Scenario')" if "%s" in v else v for k, v in _TAGS_CONSUMED.items()}, **{
+             "the-scenario-becomes-the-current-statement": "is_fresh(self.statement) and exact_type(self.statement, 'Scenario')"}))
+contract(PR + "Parser._build_scenario_outline_statement", props=["C04"], params={"self": "ref:Parser", "keyword": "str", "line": "str"},
+         self_classes=["Parser"], callsites=_BUILD_CALLS, modifies=_BUILD_MOD,
+         ensures=dict({k: v % "as_ref(self.statement, 'ScenarioOutline')" if "%s" in v else v for k, v in _TAGS_CONSUMED.items()}, **{
+             "the-outline-becomes-the-current-statement": "is_fresh(self.statement) and exact_type(self.statement, 'ScenarioOutline')"}))
+contract(PR + "Parser._build_examples", props=["C04", "C05", "C06"], params={"self": "ref:Parser", "keyword": "str", "line": "str"},
+         self_classes=["Parser"], callsites=_BUILD_CALLS, modifies=_BUILD_MOD + ["list(as_ref(self.statement, 'ScenarioOutline').examples)"],
+         raises=[Raises("ParserError", when="not typeof_is(self.statement, 'ScenarioOutline')", label="examples-outside-an-outline",
+                        ensures={"reported-at-the-current-line": "exc.line == self.line"})],
+         ensures=dict({k: v % "as_ref(self.examples, 'Examples')" if "%s" in v else v for k, v in _TAGS_CONSUMED.items()}, **{
+             "appended-to-the-current-outline":
+                 "self.statement is old(self.statement) and is_fresh(self.examples) and "
+                 "len(as_ref(self.statement, 'ScenarioOutline').examples) == old(len(as_ref(self.statement, 'ScenarioOutline').examples)) + 1 "
+                 "and as_ref(self.statement, 'ScenarioOutline').examples[len(as_ref(self.statement, 'ScenarioOutline').examples) - 1] "
+                 "is self.examples"}))
+
+# -- And/But as first step: the type of the last background step, without failing on a background that has no steps --------
+shape("ScenarioContainer", background="opt:ref:Background")
+# Step.step_type: see contracts/shapes.py
+contract(PR + "Parser._select_last_background_step_type", props=["C05", "C04"], params={"self": "ref:Parser"},
+         self_classes=["Parser"], result="any",
+         modifies=["*.status", "*.hook_failed", "*.duration", "*.exception", "*.exc_traceback", "*.error_message", "*.captured",
+                   "*._inherited_steps"],
+         ensures={"nothing-without-a-background": "implies(is_none(self.scenario_container) or "
+                                                  "is_none(as_ref(self.scenario_container, 'ScenarioContainer').background), result is None)",
+                  "type-of-the-last-own-background-step":
+                      "implies(not is_none(self.scenario_container) and truthy(self.scenario_container) and "
+                      "not is_none(as_ref(self.scenario_container, 'ScenarioContainer').background) and "
+                      "truthy(as_ref(self.scenario_container, 'ScenarioContainer').background) and "
+                      "len(as_ref(as_ref(self.scenario_container, 'ScenarioContainer').background, 'Background').steps) > 0, "
+                      "result == as_ref(as_ref(self.scenario_container, 'ScenarioContainer').background, 'Background').steps["
+                      "len(as_ref(as_ref(self.scenario_container, 'ScenarioContainer').background, 'Background').steps) - 1].step_type)"},
+         doc="never raises (no `raises`): a Background without steps yields None, so And/But as first step is reported as "
+             "ParserError by parse_step, not as IndexError")
 
 _NOTE = ["the line-oriented state machine (Parser.action, action_* functions other than the two below), keyword tables of all "
          "languages, table cell splitting and doc-string de-indentation are string code: bounded stand-in only",
